@@ -14,9 +14,12 @@ def setup():
     import django
     from django.conf import settings
     if not settings.configured:
+        import os
+        tz = os.environ.get("VP_DJANGO_TZ")      # e.g. America/Chicago: Django's own default configuration
         settings.configure(
             DEBUG=False,
-            USE_TZ=False,
+            USE_TZ=bool(tz),
+            **({"TIME_ZONE": tz} if tz else {}),
             DATABASES={"default": {"ENGINE": "django.db.backends.sqlite3", "NAME": ":memory:"}},
             INSTALLED_APPS=["vpmon.envs.vp_djapp.apps.VpDjappConfig"],
             DEFAULT_AUTO_FIELD="django.db.models.AutoField",
